@@ -5,7 +5,8 @@
 //   text <hex>                      set the text of the suffix representation (once, before `suf`)
 //   suf <offset> ...                append the suffixes text[offset..] to the pool (distinct offsets)
 //   sort <algo> <rep> <lcp> <memory> <depth>
-//        algo  ins | mkqs | CE0 | CE2 | CE3 | CI2 | CI3   (tlx::sort_strings_detail, reps ucp cucp str uptr suf)
+//        algo  ins | mkqs | CE0 | CE2 | CE3 | CI2 | CI3   (tlx::sort_strings_detail, reps ucp cucp str uptr suf and
+//                                                          scp sccp = CharStringSet / CCharStringSet on plain char)
 //              api                                        (tlx::sort_strings / sort_strings_lcp, reps cp ucp ccp
 //                                                          cucp vcp vucp vccp vcucp strp vstr; depth must be 0)
 //        lcp   0 | 1 (LCP-producing variant, std::uint32_t array)
@@ -133,7 +134,7 @@ static void do_sort(const std::vector<std::string>& t, const std::string& line) 
     const size_t n = pool.size();
     // preconditions: known algorithm/representation, common prefix of length depth
     bool api = algo == "api";
-    static const char* detail_reps[] = {"ucp", "cucp", "str", "uptr", "suf"};
+    static const char* detail_reps[] = {"ucp", "cucp", "str", "uptr", "suf", "scp", "sccp"};
     static const char* api_reps[] = {"cp", "ucp", "ccp", "cucp", "vcp", "vucp", "vccp", "vcucp", "strp", "vstr"};
     bool ok = false;
     if (api) { for (auto r : api_reps) ok |= rep == r; ok = ok && depth == 0; }
@@ -157,7 +158,7 @@ static void do_sort(const std::vector<std::string>& t, const std::string& line) 
     bool identity = true;   // object identity observable
     std::string perm_err;
 
-    bool cptr = rep == "cp" || rep == "ucp" || rep == "ccp" || rep == "cucp" || rep == "vcp" || rep == "vucp" ||
+    bool cptr = rep == "scp" || rep == "sccp" || rep == "cp" || rep == "ucp" || rep == "ccp" || rep == "cucp" || rep == "vcp" || rep == "vucp" ||
                 rep == "vccp" || rep == "vcucp";
     if (cptr) {
         std::vector<std::unique_ptr<unsigned char[]>> bufs(n);
@@ -204,6 +205,12 @@ static void do_sort(const std::vector<std::string>& t, const std::string& line) 
             }
         } else if (rep == "ucp") {
             run_set(algo, sd::UCharStringSet(arr.data(), arr.data() + n), lcp, lcpa, depth, mem);
+        } else if (rep == "scp") {
+            char** a = reinterpret_cast<char**>(arr.data());
+            run_set(algo, sd::CharStringSet(a, a + n), lcp, lcpa, depth, mem);
+        } else if (rep == "sccp") {
+            const char** a = (const char**) arr.data();
+            run_set(algo, sd::CCharStringSet(a, a + n), lcp, lcpa, depth, mem);
         } else {  // cucp
             const unsigned char** a = const_cast<const unsigned char**>(arr.data());
             run_set(algo, sd::CUCharStringSet(a, a + n), lcp, lcpa, depth, mem);
@@ -298,6 +305,8 @@ int main(int argc, char** argv) {
         print_consts<sd::StdStringSet>("str");
         print_consts<sd::UPtrStdStringSet>("uptr");
         print_consts<sd::StringSuffixSet>("suf");
+        print_consts<sd::CharStringSet>("scp");
+        print_consts<sd::CCharStringSet>("sccp");
         return 0;
     }
     std::string line;
